@@ -70,11 +70,12 @@ def extract(g, X):
     g.attempt([("hexstr_ws", "list N")], "lexer/str.rs:HexStringLexer::next_non_whitespace_char", hexws)
 
     def hexdig():
-        tabs = X.hex_nibble_tables(X.fn_body(st, "next_hex_byte"))
+        tabs = X.hex_nibble_tables(X.fn_body(st, "next_hex_byte"), st)
         rows = [X.ordered_by_key(r, [48, 65, 97]) for r, _, _ in tabs]
-        if len(rows) != 2 or rows[0] != rows[1]:
+        if len(rows) != 2 or rows[0] != rows[1] or not rows[0]:
             raise ValueError("high/low nibble arms differ or missing")
-        (end,) = [v for _, singles, _ in tabs for v, e in singles if re.fullmatch(r"return\s+Ok\(\s*None\s*\)\s*;?", e)]
+        # the byte on which the first read ends the string: `return Ok(None)`
+        (end,) = [k for k, o in tabs[0][1].items() if o.how == "return" and o.value == ("Ok", ("None",)) and not o.effects]
         return X.ctuples(rows[0]), str(end)
     g.attempt([("hexstr_digits", "list (N * N * N)"), ("hexstr_end", "N")], "lexer/str.rs:HexStringLexer::next_hex_byte", hexdig)
 
